@@ -15,6 +15,13 @@ CLAIMED = {
             "grid of ≈1.8k cases); str.lower ≡ toLowerCase as one abstract function (sampled on non-ASCII); key renaming transferIn↔transfer_in. "
             "The browser itself is out of scope.",
             "DESIGN.md §5 C13, §2.4"),
+    'C06': ("Lean 4 theorems (exact amounts) over a hand model of analyze_transactions' loop on top of the regenerated categorize_amount/normalize_amount + bit-for-bit correspondence",
+            "Proof: one_bucket (exactly one of six buckets gets |amount|, chosen by income>investment>transfer on lower-cased tags, then sign), "
+            "six_buckets_sum, cash_flow_def, transfers_net_def, groupings_conserve (Σ per-merchant = Σ per-category = Σ per-month = Σ normalised amounts; counts = n), "
+            "analyze_perm (every figure invariant under any permutation), analyze_append (partition across sources) — for lists of any length.",
+            "Trusted: Lean kernel; py→Lean translator; hand model Totals.analyze tied to analyze_transactions by bit-for-bit differential runs; amounts are exact "
+            "integers in the theorems (float rounding and Python 3.12's compensated sum() are outside the model; the implementation-side oracle uses dyadic amounts).",
+            "DESIGN.md §5 C06"),
 }
 
 PENDING_REASON = "not claimed yet: model/theorems for this property are still being built (see DESIGN.md §7 build order); no check is registered until it is sound"
